@@ -434,7 +434,8 @@ impl CanonicalRequest {
         // Create the canonical request.
         builder.canonical_request_sha256(self.canonical_request_sha256(&signed_headers));
 
-        Ok(builder.build().expect("all fields should be set"))
+        // The builder comes from the caller-supplied AuthParams; a missing field is an incomplete signature, not a panic.
+        builder.build().map_err(|e| SignatureError::IncompleteSignature(e.to_string()))
     }
 
     /// Create an [AuthParams] structure, either from the `Authorization` header or the query strings as appropriate.
